@@ -9,12 +9,15 @@
 (***************************************************************************)
 EXTENDS WireBytes
 
+ListOf(body) == <<108>> \o body \o <<101>>
+DictOf(body) == <<100>> \o body \o <<101>>
+
 RECURSIVE Enc(_)
 Enc(v) ==
     CASE v.t = "int" -> {<<105>> \o (IF v.neg THEN <<45>> ELSE <<>>) \o Decimal(v.mag) \o <<101>>}
       [] v.t = "str" -> {Decimal(MagOf(RLen(v.s))) \o <<58>> \o v.s}
-      [] v.t = "arr" -> {<<108>> \o b \o <<101>> : b \in CatAll([i \in 1..Len(v.a) |-> Enc(v.a[i])])}
-      [] v.t = "map" -> {<<100>> \o b \o <<101>> :
+      [] v.t = "arr" -> {ListOf(b) : b \in CatAll([i \in 1..Len(v.a) |-> Enc(v.a[i])])}
+      [] v.t = "map" -> {DictOf(b) :
                             b \in CatAll([i \in 1..(2 * Len(v.k)) |->
                                    IF i % 2 = 1 THEN Enc(Str(v.k[(i + 1) \div 2])) ELSE Enc(v.v[i \div 2])])}
       [] OTHER -> {}
